@@ -126,12 +126,14 @@ def main():
     if th:
         out.append("Thorough tier (VERIF_SEED=0, one run per property, copies of the evidence files in `evidence/thorough/`). "
                    "The sweep ran while the last fixes were still being made: C07 ran on /repo `f2407a4`, C12 on `dcc7141`, "
-                   "C08 on `dcc7141`/`1c8a0f0`, the others on `1c8a0f0` or `45b14ca` (the final HEAD); every check whose "
-                   "subject those last commits touch (C02, C09, C10, C15, C18, C19) was re-run on `45b14ca`. The first pass "
+                   "C08 on `dcc7141`/`1c8a0f0`, C09 C18 C19 on `45b14ca`; the last two fixes (`ef30f0b` parameter scope of nested "
+                   "calls, `88e73b8` wire selection of decider rows) came after that, and the checks of everything they touch "
+                   "(C01 C02 C03 C04 C05 C06 C10 C11 C15 C16 C20) were re-run on the final HEAD `88e73b8`. The first pass "
                    "found three things the quick tier had not: the layout decomposition moving placed entities (C18, fixed "
                    "`1c8a0f0`), a regression of my own fix `7043904` (C02, fixed `45b14ca`) and a false alarm of C10 (8.5); "
                    "it also crashed C08 / C18 in a generator (8.5). Quick tiers were additionally run with VERIF_SEED 1, 2, 3 "
-                   "(`PYTHONHASHSEED=0`, fresh processes): no violation.")
+                   "(`PYTHONHASHSEED=0`, fresh processes): no violation; and the thorough tier of 14 checks with VERIF_SEED=1 "
+                   "(`evidence/thorough/seed1_summary.txt`): no violation.")
         out.append("")
         out.append("| id | cases | held | listed | vacuous / inconclusive | skipped (budget) | evaluations | distinct non-trivial | wall s | verdict |")
         out.append("|---|---|---|---|---|---|---|---|---|---|")
